@@ -678,7 +678,57 @@ def run_tape_pair_mir(res, fx):
     if not ok:
         return
     cb, fb, ab = copyb[0], freeb[0], allocb[0]
-    res.check(cb in dom.get(fb, set()) and cb != fb, "TAPE-PAIR/MIR", key + "|copy-dominates-free", w,
+    # every *feasible* path to the free passes through the copy.  Feasibility: the tests of `self.size` against zero are correlated as long as
+    # the field is not stored in between (an `if size != 0 { copy }` followed by a helper that frees only `if size != 0`)
+    def size_edges(bi):
+        """edges of a block whose switch tests (*self).size ==/!= 0: {target: 'zero'|'nonzero'}"""
+        b = blocks[bi]
+        t = b["term"]
+        if t["k"] != "switch":
+            return {}
+        dl = operand_locals(t["discr"])
+        size_locals, cmp_ = set(), None
+        for st in b["stmts"]:
+            if st["k"] != "assign" or st["place"]["proj"]:
+                continue
+            rv = st["rv"]
+            if rv["k"] == "use" and rv["op"].get("k") in ("copy", "move") and [e.get("name") for e in rv["op"]["place"]["proj"] if e["k"] == "field"] == ["size"]:
+                size_locals.add(st["place"]["local"])
+            if rv["k"] == "binary" and rv["op"] in ("Eq", "Ne") and st["place"]["local"] in dl:
+                ops = [rv["l"], rv["r"]]
+                loc = [o for o in ops if o.get("k") in ("copy", "move") and operand_locals(o) & size_locals]
+                zero = [o for o in ops if o.get("k") == "const" and str(o.get("bits")) == "0"]
+                if loc and zero:
+                    cmp_ = rv["op"]
+        if cmp_ is None:
+            return {}
+        out = {}
+        for v, tb in t["targets"]:
+            if str(v) == "0":
+                out[tb] = "zero" if cmp_ == "Ne" else "nonzero"      # comparison false
+        out[t["otherwise"]] = "nonzero" if cmp_ == "Ne" else "zero"
+        return out
+    size_store_blocks = {sb for sb, _ in stores.get("size", [])}
+    seen, work, escapes = set(), [(0, None)], False
+    while work:
+        bi, fact = work.pop()
+        if (bi, fact) in seen or bi == cb:
+            continue
+        seen.add((bi, fact))
+        if bi == fb:
+            escapes = True
+            break
+        if bi in size_store_blocks:
+            fact = None
+        se = size_edges(bi)
+        for nb in succs(blocks[bi]):
+            nf = fact
+            if nb in se:
+                if fact is not None and fact != se[nb]:
+                    continue        # contradicts what an earlier test of the unchanged size established
+                nf = se[nb]
+            work.append((nb, nf))
+    res.check(not escapes and cb != fb, "TAPE-PAIR/MIR", key + "|copy-dominates-free", w,
               "the old block can be freed on a path that has not copied its contents into the new block")
     bad = []
     for name, lst in stores.items():
